@@ -73,6 +73,9 @@ def gen_world(seed, tier):
         if rng.random() < 0.08 and es:
             es.append([es[0][0], es[0][1], str(rng.randint(1, 9))])       # a duplicated edge line: last one wins
         headers = ["graph number = %d name = g%d" % (b, rng.randint(0, 99))]
+        if blocks and rng.random() < 0.25:
+            # ids are whatever the first header line says: generic or repeated ones ("# graph") are legal
+            headers = [blocks[-1]["headers"][0]]
         for _ in range(rng.randint(0, 2)):
             headers.append(rng.choice(["any other header line", "k = 3", "", "# double hash"]))
         cons = []
@@ -95,7 +98,8 @@ def gen_world(seed, tier):
         zero = rng.random() < 0.07
         blocks.append({"headers": headers, "constraints": cons, "n": 0 if zero else n, "edges": [] if zero else es,
                        "blank_after_header": rng.random() < 0.2, "blank_between": rng.random() < 0.2,
-                       "cons_first": rng.random() < 0.3, "indent": rng.random() < 0.1})
+                       "cons_first": rng.random() < 0.3, "indent": rng.random() < 0.1,
+                       "cons_before_id": rng.random() < 0.15})
     return {"blocks": blocks, "kind": rng.choice(KINDS), "fseed": rng.randrange(1 << 30), "reads": rng.choice([1, 1, 2, 3]),
             "leading_junk": rng.random() < 0.1, "trailing_blank": rng.random() < 0.2}
 
@@ -112,7 +116,9 @@ def render(world):
     for b in world["blocks"]:
         hl = ["# " + h if h else "#" for h in b["headers"]]
         cl = ["#S " + " ".join(c) for c in b["constraints"]]
-        if b.get("cons_first") and len(hl) > 1:
+        if b.get("cons_before_id"):
+            head = cl + hl                 # '#S' lines may stand anywhere among the header lines, also before the id line
+        elif b.get("cons_first") and len(hl) > 1:
             head = hl[:1] + cl + hl[1:]
         else:
             head = hl + cl
